@@ -20,7 +20,7 @@ import (
 	"sync"
 	"time"
 
-	_ "github.com/buzzfeed/sso/verif/checks"
+	"github.com/buzzfeed/sso/verif/checks"
 	"github.com/buzzfeed/sso/verif/engine/explore"
 	fw "github.com/buzzfeed/sso/verif/framework"
 	"github.com/sirupsen/logrus"
@@ -55,6 +55,17 @@ func main() {
 	seed, _ := strconv.ParseInt(os.Getenv("VERIF_SEED"), 10, 64)
 
 	switch cmd {
+	case "race":
+		// auxiliary free-running pass; meaningful only in a binary built with -race (VERIF_RACE=1 ./check race <ID>)
+		body := checks.RaceBodies[arg]
+		if body == nil {
+			die(2, "no race body for %s", arg)
+		}
+		for round := int64(0); round < 20; round++ {
+			body(seed+round*97, 300)
+		}
+		fmt.Printf("race pass %s: 20 rounds x 4 goroutines x 300 iterations completed (sampling; a race report above means a violation)\n", arg)
+		os.Exit(0)
 	case "mapworker":
 		defer func() {
 			if r := recover(); r != nil {
